@@ -63,6 +63,9 @@ func (x *Exec) specEnv(st *State, fr *Frame, results []Val) *Env {
 	}
 	for _, fv := range fr.fn.FreeVars {
 		if v, ok := fr.vals[fv]; ok {
+			// a captured variable is a cell; specifications refer to its contents
+			v.Loc = x.locOf(v)
+			v.Rng = &Val{S: "addr"}
 			e.vars[fv.Name()] = v
 		}
 	}
@@ -492,6 +495,16 @@ func (x *Exec) eval(sx *SX, env *Env) Val {
 			x.specFail("zero of unknown type %s", args[0].String())
 		}
 		return Val{S: x.so.zero(t), T: t}
+	case "global":
+		// (global Name): value of a package-level variable of the current package
+		obj := x.L.ByPath[env.pkg].Types.Scope().Lookup(args[0].Atom)
+		gv, ok := obj.(*types.Var)
+		if !ok {
+			x.specFail("no package-level variable %s", args[0].Atom)
+		}
+		ref := x.so.globalRef(env.pkg + "." + gv.Name())
+		l := &Loc{Ref: ref, BT: gv.Type()}
+		return Val{S: x.load(env, l), T: gv.Type()}
 	case "local":
 		if env.fr != nil {
 			if v, ok := env.fr.locals[args[0].Atom]; ok {
